@@ -446,6 +446,47 @@ theorem shift1_inverse (n : Nat) (x : Nat → K) (i : Nat) (hi : i < n) :
     have : i + n / 2 - n + (n - n / 2) < n := by omega
     simp only [this, if_true]; omega
 
+/-- DomainTupleFieldInserter on a `(pre, n, post)` target: the input lands at position `p` of the new space, zeros elsewhere -/
+theorem fieldInserter_spec (pre n post p : Nat) (hp : p < n) (x : Nat → K) (a r b : Nat)
+    (ha : a < pre) (hr : r < n) (hb : b < post) :
+    apply (fieldInserter pre n post p) x ((a * n + r) * post + b) = if p = r then x ((a * 1 + 0) * post + b) else 0 := by
+  unfold fieldInserter
+  have hwf : (⟨n, 1, [(p, 0, (1 : K))]⟩ : Coo K).wf = true := by
+    rw [wf_iff]; intro e he; simp only [List.mem_singleton] at he; subst he; exact ⟨hp, Nat.zero_lt_one⟩
+  have := apply_onAxis pre post (⟨n, 1, [(p, 0, (1 : K))]⟩ : Coo K) hwf x a r b ha hr hb
+  simp only at this
+  rw [this]
+  simp [apply, applyE]
+
+/-- ExtractAtIndices on a `(pre, n, post)` domain: `y[a, k, b] = x[a, idx[k], b]` (repeated indices allowed) -/
+theorem extractAt_spec (pre n post : Nat) (idx : List Nat) (hidx : ∀ k, k < idx.length → idx.getD k 0 < n)
+    (x : Nat → K) (a k b : Nat) (ha : a < pre) (hk : k < idx.length) (hb : b < post) :
+    apply (extractAt pre n post idx) x ((a * idx.length + k) * post + b) = x ((a * n + idx.getD k 0) * post + b) := by
+  unfold extractAt
+  have hwf : (gather idx.length n fun k => idx.getD k 0 : Coo K).wf = true := gather_wf _ _ _ hidx
+  have := apply_onAxis pre post (gather idx.length n fun k => idx.getD k 0 : Coo K) hwf x a k b ha hk hb
+  simp only [gather, ofRows] at this ⊢
+  rw [this]
+  have h2 := gather_spec (K := K) idx.length n (fun k => idx.getD k 0) (fun c => x ((a * n + c) * post + b)) k hk
+  simpa [gather, ofRows] using h2
+
+/-- MatrixProductOperator on the middle block of a `(pre, n, post)` domain: `y[a, i, b] = Σ_j m[i, j] · x[a, j, b]` -/
+theorem matrixProduct_spec (pre n post : Nat) (m : List K) (x : Nat → K) (a i b : Nat)
+    (ha : a < pre) (hi : i < n) (hb : b < post) :
+    apply (matrixProduct pre n post m) x ((a * n + i) * post + b)
+      = sumN n fun j => m.getD (i * n + j) 0 * x ((a * n + j) * post + b) := by
+  unfold matrixProduct
+  have hwf : (ofRows n n fun i => (List.range n).map fun j => (j, m.getD (i * n + j) 0) : Coo K).wf = true := by
+    apply ofRows_wf; intro r _ cw hcw
+    simp only [List.mem_map, List.mem_range] at hcw
+    obtain ⟨c, hc, rfl⟩ := hcw; exact hc
+  have := apply_onAxis pre post (ofRows n n fun i => (List.range n).map fun j => (j, m.getD (i * n + j) 0) : Coo K)
+    hwf x a i b ha hi hb
+  simp only [ofRows] at this ⊢
+  rw [this]
+  have h2 := matrixProduct1_spec (K := K) n m (fun c => x ((a * n + c) * post + b)) i hi
+  simpa [ofRows] using h2
+
 /-- every row-wise operator with in-range columns satisfies the adjoint identity (instance of `coo_adjoint`) -/
 theorem ofRows_adjoint {cj : K → K} (hc : IsConj cj) (rows cols : Nat) (f : Nat → List (Nat × K))
     (h : ∀ r, r < rows → ∀ cw ∈ f r, cw.1 < cols) (x y : Nat → K) :
@@ -570,6 +611,14 @@ theorem einsum_adjoint {cj : K → K} (hc : IsConj cj) (hc1 : cj 1 = 1) (letters
     (ops : List (List Char × List K)) (xs os : List Char) :
     adj cj (einsum letters sz ops xs os) = einsum letters sz (ops.map fun o => (o.1, o.2.map cj)) os xs :=
   einsum_adj hc hc1 letters sz ops xs os
+
+/-- hence the adjoint identity for every LinearEinsum whose subscripts are consistent (all letters known) -/
+theorem einsum_adjoint_identity {cj : K → K} (hc : IsConj cj) (letters : List Char) (sz : Char → Nat)
+    (ops : List (List Char × List K)) (xs os : List Char)
+    (hxs : ∀ c ∈ xs, c ∈ letters) (hos : ∀ c ∈ os, c ∈ letters) (x y : Nat → K) :
+    inner cj (einsum letters sz ops xs os).rows y (apply (einsum letters sz ops xs os) x)
+      = inner cj (einsum letters sz ops xs os).cols (applyAdj cj (einsum letters sz ops xs os) y) x :=
+  Coo.coo_adjoint hc _ (einsum_wf letters sz ops xs os hxs hos) x y
 
 /-! ## Part 3 — the adjoint identity for each modelled operator class, every configuration
     (`coo_adjoint` + well-formedness of the class model, Lemmas/LinOpsWf.lean) -/
